@@ -1,7 +1,7 @@
 """C20 — generators and aggregating constructors build what they advertise.
 
 Everything random is RECORDED: `np.random.uniform` (the only numpy.random function the
-generators call) is replaced by a recording stand-in for the duration of one call and
+generators call today; `random_sample` / `random` / `ranf` / `sample` / `rand` are recorded the same way) is replaced by a recording stand-in for the duration of one call and
 restored in `finally`; the recorded draws are handed to the Lean model, which must
 reproduce the object exactly.  Two draw sources: the real generator under a seed, and a
 collision-heavy dyadic source (few distinct rows) that drives the redraw loop of
@@ -84,6 +84,15 @@ class Recorder:
     def __call__(self, low=0.0, high=1.0, size=None):
         lo, hi = float(low), float(high)      # the generators pass scalars; anything else raises here
         u = self.real(0.0, 1.0, size)          # size validation and (kind "real") the seeded stream
+        return self._emit(u, lo, hi)
+
+    def unit(self, draw):
+        """the other spellings of 'unit variates from the global stream' (random_sample / random / ranf / sample /
+        rand): `draw()` calls the real function (argument validation, and the same doubles of the seeded stream as
+        uniform(0, 1, size) would take); recorded exactly like a uniform(0, 1, size) call"""
+        return self._emit(draw(), 0.0, 1.0)
+
+    def _emit(self, u, lo, hi):
         if self.kind != "real":
             a = np.asarray(u, dtype=float)
             if a.ndim == 2:
@@ -107,11 +116,21 @@ def with_recorder(src, fn, full=False):
     the recorder itself (unit variates and requested intervals per call)."""
     real = np.random.uniform
     rec = Recorder(src, real)
+    # the property speaks of "uniform on [0,1)" and "reproducibly under the global seed", not of WHICH function of the
+    # legacy global stream is called: every spelling of a unit variate is recorded the same way (harmless/C20z)
+    others = {n: getattr(np.random, n) for n in ("random_sample", "random", "ranf", "sample", "rand") if hasattr(np.random, n)}
     np.random.uniform = rec
+    for n, f in others.items():
+        if n == "rand":
+            setattr(np.random, n, (lambda *dims, _f=f: rec.unit(lambda: _f(*dims))))
+        else:
+            setattr(np.random, n, (lambda size=None, _f=f: rec.unit(lambda: _f(size))))
     try:
         out = call(fn)
     finally:
         np.random.uniform = real
+        for n, f in others.items():
+            setattr(np.random, n, f)
     if full:
         return out, rec.calls, rec
     return out, rec.calls
